@@ -57,6 +57,7 @@ def check_empty_block_header(run: Run) -> None:
     _absent_skips_one(run)
     run.rule("R18.8", "present-but-empty is not absent: in the META emitter the `KEY:` header of a nested block is appended unconditionally as soon as the value is a dict (it does not depend on whether any nested field produced a line)", 1)
     em = run.project.mod("core.emitter")
+    _absence_not_truthiness(run, em)
     cands = [f for q, f in em.functions.items() if q in ("emit_meta", "_emit_meta_fields")]
     n = 0
     for fi in cands:
@@ -85,6 +86,45 @@ def check_empty_block_header(run: Run) -> None:
                     run.violation("R18.8", em, fi.qualname, "nested META block header is conditional", f"{fi.qualname} writes the `KEY:` header of a block nested in META only under a condition ({len(nested)} conditional site(s)): a block that is present but empty (EXTENSIONS: with no fields) disappears from every file the tools write, although no change named it")
     if n < 1:
         raise AnalysisError("emit_meta: dict branch not found")
+
+
+def _absence_not_truthiness(run: Run, em) -> None:
+    """R18.10: null, \"\", 0, false and [] are values; only Absent is absence"""
+    run.rule("R18.10", "absence is never decided by truthiness: in the emitter every any()/all()/filter() over the values or items of a container judges each element with is_absent(..) / isinstance(.., Absent) - a bare element, `not v`, bool(v) or filter(None, ..) would treat null, \"\", 0, false and [] like an absent field and drop them", 2)
+    n = 0
+
+    def elt_is_truthiness(e: ast.AST, var: str | None) -> bool:
+        while isinstance(e, ast.UnaryOp) and isinstance(e.op, ast.Not):
+            e = e.operand
+        if isinstance(e, ast.Call) and isinstance(e.func, ast.Name) and e.func.id == "bool" and len(e.args) == 1:
+            e = e.args[0]
+        return isinstance(e, ast.Name) and (var is None or e.id == var)
+
+    for q, fi in em.functions.items():
+        for c in walk_no_nested(fi.node):
+            if not (isinstance(c, ast.Call) and isinstance(c.func, ast.Name) and c.func.id in ("any", "all", "filter") and c.args):
+                continue
+            arg = c.args[-1] if c.func.id == "filter" else c.args[0]
+            src = arg.generators[0].iter if isinstance(arg, (ast.GeneratorExp, ast.ListComp)) and arg.generators else arg
+            stxt = ast.unparse(src)
+            if not (".values()" in stxt or ".items" in stxt or ".pairs" in stxt or ".children" in stxt or ".sections" in stxt):
+                continue
+            n += 1
+            bad = None
+            if c.func.id == "filter":
+                if isinstance(c.args[0], ast.Constant) and c.args[0].value is None:
+                    bad = "filter(None, ...) keeps only truthy elements"
+            elif not isinstance(arg, (ast.GeneratorExp, ast.ListComp)):
+                bad = f"{c.func.id}() over the bare elements tests their truthiness"
+            else:
+                var = arg.generators[0].target.id if isinstance(arg.generators[0].target, ast.Name) else None
+                if elt_is_truthiness(arg.elt, var):
+                    bad = f"`{norm(arg.elt)}` tests the element's truthiness"
+            run.instance("R18.10", em.loc(c), f"{q}: `{norm(c)[:80]}`", ok=bad is None)
+            if bad:
+                run.violation("R18.10", em, q, c, f"{q}: {bad}: an explicit null, an empty string, 0, false or an empty list is then treated like an Absent field (dropped from the output, or its container is skipped as empty) - absent, null and value are confused")
+    if n == 0:
+        raise AnalysisError("emitter: no any()/all() over container values found (the all-Absent inline-map guards): anchor moved")
 
 
 def check(run: Run) -> None:
